@@ -247,6 +247,7 @@ def main():
 
     # 1. rebuild from the current tree
     try:
+        os.environ["VERIF_BUILD_DIR"] = build.build_dir()
         build.ensure_worlds(P.WORLDS)
         if hasattr(P, "prebuild"):
             P.prebuild(a.tier)
